@@ -17,6 +17,7 @@ import (
 	"time"
 
 	"gosym/exec"
+	"gosym/instr"
 	"gosym/load"
 )
 
@@ -71,6 +72,7 @@ type replayFile struct {
 	Label    string            `json:"label"`
 	Kind     string            `json:"kind"`
 	Pos      string            `json:"pos,omitempty"`
+	Extra    map[string]string `json:"extra,omitempty"`
 }
 
 func envInt(name string, def int) int {
@@ -290,7 +292,7 @@ func cmdCheck(args []string) int {
 			seenWL[key] = true
 			perHarness[wj.j.Harness]++
 			f := filepath.Join(outDir, fmt.Sprintf("witness-%d.json", len(wjobs)))
-			writeJSON(f, replayFile{Property: *propID, Harness: wj.j.Harness, Bounds: wj.j.Bounds, Inputs: wj.w.Inputs, Known: known, Label: wj.w.Label, Kind: "witness"})
+			writeJSON(f, replayFile{Property: *propID, Harness: wj.j.Harness, Bounds: wj.j.Bounds, Inputs: wj.w.Inputs, Known: known, Label: wj.w.Label, Kind: "witness", Extra: wj.w.Extra})
 			wjobs = append(wjobs, wjob{f, wj.w.Label, wj.j.Harness})
 		}
 		type wres struct {
@@ -320,7 +322,7 @@ func cmdCheck(args []string) int {
 		// counterexamples
 		for i, c := range cands {
 			f := filepath.Join(outDir, fmt.Sprintf("cex-%d.json", i))
-			writeJSON(f, replayFile{Property: *propID, Harness: c.j.Harness, Bounds: c.j.Bounds, Inputs: c.v.Inputs, Known: known, Label: c.v.Label, Kind: c.v.Kind, Pos: c.v.Pos})
+			writeJSON(f, replayFile{Property: *propID, Harness: c.j.Harness, Bounds: c.j.Bounds, Inputs: c.v.Inputs, Known: known, Label: c.v.Label, Kind: c.v.Kind, Pos: c.v.Pos, Extra: c.v.Extra})
 			tmo := 60 * time.Second
 			if c.v.Kind == "unwind" {
 				tmo = 10 * time.Second
@@ -590,6 +592,17 @@ func buildReplay(repo, hdir, outDir, bin string) (string, error) {
 	for virt := range ov {
 		rel, _ := filepath.Rel(filepath.Join(repo, "internal", "zzverif"), virt)
 		rep[virt] = filepath.Join(hdir, rel)
+	}
+	// instrumented copies of the klevdb files that mutate the file system (crash replay)
+	ir, err := instr.Instrument(repo, filepath.Join(outDir, "instr"))
+	if err != nil {
+		return "instrumentation: " + err.Error(), err
+	}
+	if len(ir.Unsupported) > 0 {
+		return strings.Join(ir.Unsupported, "\n"), fmt.Errorf("instrumentation: unsupported statement shape")
+	}
+	for real, inst := range ir.Files {
+		rep[real] = inst
 	}
 	ovFile := filepath.Join(outDir, "overlay.json")
 	writeJSON(ovFile, map[string]any{"Replace": rep})
